@@ -309,7 +309,9 @@ def run_impl_sharded(exe, cases, outdir, shards=8, timeout=900, env=None):
 
 def run_model(name, cases_path, timeout=600):
     exe = os.path.join(TARGET, "model_%s" % name)
-    rc, out = sh("%s < %s" % (exe, cases_path), timeout)
+    # extracted code is not tail-recursive: give it a large stack for long histories
+    rc, out = sh("ulimit -s unlimited 2>/dev/null || ulimit -s 4000000 2>/dev/null; %s < %s" % (exe, cases_path),
+                 timeout)
     if rc != 0:
         raise RuntimeError("model driver failed (%d): %s" % (rc, out[-2000:]))
     return parse_lines(out)
